@@ -270,6 +270,30 @@ def special_shapes(tier):
         ("list", ("typed", ("ualias", "point")), ()), ("any", (("ualias", "slug"), NONE)),
         # braces in a str key (format-template characters), alone and as an any alternative
         braces, ("any", (braces, NONE)), ("list", ("elems", (E, braces, E)), ()),
+    ] + sized_shapes()
+
+
+def sized_shapes():
+    """Bigger and deeper than the toy shapes: three concrete elements in each list form (so that
+    first, middle and last differ), four keys, three and four alternatives, nesting depth 3-4, a
+    later sibling after an optional / failing / `...` one."""
+    a, b, c = S("int", ("min", 1)), S("str", call("ab")), NONE
+    four = ("dict", (("a", False, INT), ("b", True, STR), ("c", False, NONE), ("d", True, a)), False)
+    deep = ("dict", (("a", False, ("list", ("elems", (("dict", (("b", False, ("list", ("typed", a), ())),
+                                                                 ("c", True, b)), False), E)), ())),
+                     ("z", True, INT)), False)
+    return [
+        ("list", ("elems", (a, b, c)), ()), ("list", ("elems", (a, b, c, E)), ()),
+        ("list", ("elems", (E, a, b, c)), ()), ("list", ("elems", (E, a, b, c, E)), ()),
+        ("list", ("elems", (a, a, b)), ()), ("list", ("elems", (E, a, a, b, E)), ()),
+        ("list", ("elems", (E, b, a, a)), (ln(4, 6),)), ("list", ("elems", (a, b, c, E)), (ln(E, 4),)),
+        ("list", ("typed", ("list", ("typed", ("list", ("typed", a), ())), ())), ()),
+        four, ("dict", four[1], True), ("add", four, ("dict", (("b", False, a), ("e", True, b)), True)),
+        ("mkreq", four, ("b",)), ("mkreq", four, None),
+        ("any", (a, b, c)), ("any", (a, b, c, S("bool"))), ("or", ("or", a, b), ("or", c, S("bool"))),
+        ("any", (("list", ("typed", a), ()), ("dict", (("a", False, a),), False), b)),
+        ("list", ("typed", ("any", (("alias", "A", a), b, c))), (ln(1, 3),)),
+        deep, ("list", ("typed", deep), ()), ("alias", "D", deep), ("any", (deep, c)),
     ]
 
 
